@@ -2,7 +2,7 @@
 (* Trace validation for Replication.tla (C02, C04).  Every line of          *)
 (* trace.ndjson is one step executed on the real three-replica kit with     *)
 (* the projected state of all replicas after the step.  Recorded variables  *)
-(* (meta, up, role, log, hw, hwDisk, ec, isrOff, obs) are bound to the      *)
+(* (meta, up, role, log, hw, hwDisk, ec, isrOff, obs, held) are bound to     *)
 (* recording; the unrecorded ones (pend, caught, nacked, taint, committed)   *)
 (* are computed by the specification.  Then                                 *)
 (*   - the C02 / C04 invariants and action properties are evaluated on the  *)
@@ -44,6 +44,10 @@ NextOf(e) ==
     [] e.a = "Fetch" -> LET nt == N_Fetch(e.args.f, TRUE) IN
                         IF nt.hw = Fn(e.st.hw) THEN nt ELSE N_Fetch(e.args.f, FALSE)
     [] e.a = "FetchLost" -> N_FetchLost(e.args.f)
+    \* which HW the held response carries only shows when it is delivered
+    [] e.a = "FetchHold" -> N_FetchHold(e.args.f, "both")
+    [] e.a = "Deliver" -> LET nt == N_Deliver(e.args.f, TRUE) IN
+                          IF nt.hw = Fn(e.st.hw) THEN nt ELSE N_Deliver(e.args.f, FALSE)
     [] e.a = "LagExpire" -> N_LagExpire(e.args.f)
     [] e.a = "Shrink" -> N_Shrink(e.args.f)
     [] e.a = "Expand" -> N_Expand(e.args.f)
@@ -62,6 +66,8 @@ GuardOf(e) ==
     [] e.a = "PublishRejected" -> G_PublishRejected(e.args.v)
     [] e.a = "Fetch" -> G_Fetch(e.args.f)
     [] e.a = "FetchLost" -> G_FetchLost(e.args.f)
+    [] e.a = "FetchHold" -> G_FetchHold(e.args.f)
+    [] e.a = "Deliver" -> G_Deliver(e.args.f)
     [] e.a = "LagExpire" -> TRUE
     [] e.a = "Shrink" -> Leading(Leader) /\ e.args.f \in meta.isr
     [] e.a = "Expand" -> Leading(Leader) /\ e.args.f \notin meta.isr
@@ -85,6 +91,7 @@ TraceInit ==
   /\ hwDisk = s.hwDisk /\ ec = s.ec /\ isrOff = s.isrOff /\ obs = NoAcks
   /\ pend = [r \in R |-> <<>>] /\ caught = [r \in R |-> FALSE]
   /\ committed = {} /\ nacked = {} /\ taint = {} /\ lagging = {}
+  /\ inflight = [r \in R |-> <<>>]
   /\ l = 2
 
 TraceNext ==
@@ -96,9 +103,10 @@ TraceNext ==
         THEN /\ BindSeen(s)
              /\ pend' = [r \in R |-> <<>>] /\ caught' = [r \in R |-> FALSE]
              /\ committed' = {} /\ nacked' = {} /\ taint' = {}
+             /\ inflight' = [r \in R |-> <<>>]
         ELSE LET n == NextOf(e) IN
              /\ BindSeen(s)
-             /\ pend' = n.pend /\ caught' = n.caught /\ taint' = n.taint
+             /\ pend' = n.pend /\ caught' = n.caught /\ taint' = n.taint /\ inflight' = n.inflight
              /\ nacked' = nacked \cup s.obs.nacks
              /\ committed' = committed \cup NewlyCommitted(s)
              \* ---- properties on the real state / transition
@@ -128,6 +136,9 @@ TraceNext ==
              /\ Chk(s.obs = n.obs, "I", e, "acks")
              /\ Chk(\A r \in R : e.st.pendN[r] = Len(n.pend[r]), "I", e, "pend")
              /\ Chk(~Skipped(e) \/ e.res = "skipped:not-in-isr", "I", e, "skipped")
+             \* a goroutine of replica r is inside the response handler exactly when the specification
+             \* has a response on its way to r
+             /\ Chk(\A r \in R : e.st.held[r] = (n.inflight[r] # <<>>), "I", e, "held")
              \* the real health check decided as the specification's guard does
              /\ Chk(e.a # "AwaitTick" \/ Skipped(e) \/ e.args.outOfSync = TickOutOfSync(e.args.f), "I", e, "tick-guard")
 
